@@ -20,6 +20,7 @@
 #include <cassert>
 #include <chrono>
 #include <cstdint>
+#include <optional>
 #include <string>
 #include <unordered_map>
 #include <unordered_set>
